@@ -431,6 +431,10 @@ def vc_ne_end(prog, state_kind='edge', family='base'):
             # C19: a candidate is marked as stopped here only under debug
             stop_now = r.f['stop']
             g.append(('debug:candidate-marked-stopped-only-under-debug', z3.Implies(b2z(stop_now) != b2z(calls[0]['stop0']), z3.Bool('debug'))))
+            # C19: a candidate that next() returned as stopped (it exists only under debug) never becomes a best known state
+            reg = [e for e in ctx.events if e.kind == 'dictset' and e.d is st['lattice_best'] and e.value is r]
+            g.append(('debug:stopped-candidate-is-never-registered-as-best-known-state',
+                      z3.Implies(b2z(bool(reg)), z3.Not(b2z(calls[0]['stop0'])))))
             best_objs = st.get('best_objs', [])
             if best_objs:
                 b = best_objs[-1]
@@ -542,6 +546,9 @@ def vc_ne_inner(prog, state_kind='edge', family='base'):
             g.append(('file:merged-only-into-the-entry-stored-under-the-same-key', b2z(all(u.cand is r and any(u.target is s_ for s_ in st.get('stored', [])) for u in upd))))
             g.append(('file:filed-or-merged-not-both', b2z(len(writes) + len(upd) <= 1)))
             g.append(('debug:dropped-candidate-marked-stopped-or-unchanged', z3.BoolVal(True)))
+            reg = [e for e in ctx.events if e.kind == 'dictset' and e.d is st['lattice_best'] and e.value is r]
+            g.append(('debug:stopped-candidate-is-never-registered-as-best-known-state',
+                      z3.Implies(b2z(bool(reg)), z3.Not(b2z(calls[0]['stop0'])))))
         elif calls:
             g.append(('file:none-is-never-filed', b2z(not writes and not upd)))
         return [(n, b2z(f)) for n, f in g]
